@@ -18,6 +18,9 @@ theorem decState_graceful : ∀ (t : Ty), Graceful (decState t) := by
     exact Graceful.bind' (Graceful.le 8) fun _ => Graceful.guard _ _
   | map k v ihk ihv => simp only [decState]; exact Graceful.bind' ihk fun _ => ihv
   | pair a b iha ihb => simp only [decState]; exact Graceful.bind' iha fun _ => ihb
+  | versioned v t ih =>
+    simp only [decState]
+    exact Graceful.bind' (Graceful.le 8) fun _ => Graceful.bind' (Graceful.guard _ _) fun _ => ih
   | _ => simp only [decState]; exact Graceful.pure _
 
 theorem header_graceful (cfg : Cfg) (v : Nat) (h : StrAllocOK cfg.strLim cfg.cap) : Graceful (Results.header cfg v) := by
